@@ -29,6 +29,7 @@ import importlib
 import json
 import multiprocessing
 import os
+import signal
 import sys
 import time
 import traceback
@@ -147,6 +148,14 @@ class HarnessError(Exception):
     pass
 
 
+class CaseTimeout(KeyboardInterrupt):
+    """raised by the per-case watchdog (SIGALRM): the case is abandoned and counted as inconclusive, never as a violation"""
+
+
+def _on_alarm(signum, frame):
+    raise CaseTimeout()
+
+
 def _regress_main(args):
     modname, prop = args
     setup_env()
@@ -174,7 +183,7 @@ def _shard_main(args):
     setup_env()
     t0 = time.time()
     res = {"part": None, "shard": shard, "evaluations": 0, "nontrivial": set(), "labels": {},
-           "violations": {}, "samples": [], "error": None, "inconclusive": False, "wall": 0.0}
+           "violations": {}, "samples": [], "error": None, "inconclusive": False, "wall": 0.0, "timeouts": 0}
     try:
         mod = importlib.import_module(modname)
         part = mod.PARTS[part_index]
@@ -182,11 +191,29 @@ def _shard_main(args):
         n = part.examples[tier]
         deadline = t0 + budget_s
 
+        case_timeout = float(getattr(mod, "CASE_TIMEOUT_S", 180 if tier == "quick" else 900))
+        max_timeouts = int(getattr(mod, "MAX_CASE_TIMEOUTS", 6))
+        signal.signal(signal.SIGALRM, _on_alarm)
+
         def handle(case):
-            if time.time() > deadline:
+            if time.time() > deadline or res["timeouts"] >= max_timeouts:
                 res["inconclusive"] = True
                 return
-            out = safe_run_case(part, case)
+            signal.setitimer(signal.ITIMER_REAL, case_timeout)
+            try:
+                out = safe_run_case(part, case)
+            except CaseTimeout:
+                # wall-clock budget of one case exhausted (e.g. code under test became super-linear): inconclusive
+                res["timeouts"] += 1
+                res["labels"]["case-timeout"] = res["labels"].get("case-timeout", 0) + 1
+                try:
+                    from vlib import aio
+                    aio.abandon_loop()
+                except Exception:
+                    pass
+                return
+            finally:
+                signal.setitimer(signal.ITIMER_REAL, 0)
             res["evaluations"] += 1
             for lb in out.labels:
                 res["labels"][lb] = res["labels"].get(lb, 0) + 1
@@ -250,7 +277,14 @@ def shrink_case(mod, part, tier, seed, shard, tag, original, budget_s):
     def hunt(case):
         if time.time() - t0 > budget_s:
             return
-        out = safe_run_case(part, case)
+        signal.signal(signal.SIGALRM, _on_alarm)
+        signal.setitimer(signal.ITIMER_REAL, float(getattr(mod, "CASE_TIMEOUT_S", 180)))
+        try:
+            out = safe_run_case(part, case)
+        except CaseTimeout:
+            return
+        finally:
+            signal.setitimer(signal.ITIMER_REAL, 0)
         if any(t == tag for t, _ in out.violations):
             size = len(canon(case))
             if size <= best["size"]:
@@ -410,6 +444,7 @@ def main(argv=None):
         if len(m["samples"]) < 4:
             m["samples"].extend(r["samples"][:2])
         m["inconclusive"] = m["inconclusive"] or r["inconclusive"]
+        m["timeouts"] = m.get("timeouts", 0) + r.get("timeouts", 0)
         m["wall"] = max(m["wall"], r["wall"])
 
     # 3. verdicts
@@ -476,7 +511,8 @@ def main(argv=None):
         "samples": samples[:12] or [{"note": "no non-trivial case recorded"}],
         "exhaustive": bool(getattr(mod, "EXHAUSTIVE", False)),
         "parts": {pname: {"evaluations": m["evaluations"], "distinct_nontrivial": len(m["nontrivial"]),
-                          "inconclusive_budget_hit": m["inconclusive"], "max_shard_wall_s": round(m["wall"], 1)}
+                          "inconclusive_budget_hit": m["inconclusive"], "cases_abandoned_on_timeout": m.get("timeouts", 0),
+                          "max_shard_wall_s": round(m["wall"], 1)}
                   for pname, m in merged.items()},
         "classes": classes,
         "regression_cases_replayed": nreg,
